@@ -31,7 +31,7 @@ RULE = ('one evaluation = one seeded run: a single-client sequence of 10-120 map
         'SHA-256 of program or event log')
 ASSUMPTIONS = ['Index.setdefault is checked as the documented get/add loop (insert attempts + final lookup), not as one indivisible step',
                'key alphabet avoids pairs that Python treats as equal but diskcache documents as distinct (True/1, 2**63/2.0**63)']
-PROBES = ('fifo_churn', 'own_temporary_directory', 'lifecycle', 'from_fanout', 'from_django', 'lock_wait', 'file_backed_replace')
+PROBES = ('fifo_churn', 'own_temporary_directory', 'lifecycle', 'from_fanout', 'from_django', 'parent_calls', 'lock_wait', 'file_backed_replace')
 TECHNIQUE = 'deterministic simulation + differential testing against collections.OrderedDict; seeded schedules + linearizability (no miss tolerance) for concurrent use'
 LEVEL_TEXT = ('seeded exploration of mapping-call sequences with lifecycle events against OrderedDict, and of 2-3 client '
               'interleavings decided by a linearizability search in which a lookup of a continuously present key may never miss.')
@@ -125,7 +125,25 @@ def gen_case(seed, tier):
            # the parent an Index is obtained from may have been built with its own eviction settings: an Index never evicts
            'parent_opts': rng.choice(({}, {}, {'eviction_policy': 'least-recently-used', 'size_limit': 2 ** 16, 'cull_limit': 10},
                                       {'eviction_policy': 'least-frequently-used', 'cull_limit': 2, 'statistics': 1, 'tag_index': 1}))}
+    if cfg['origin'] in ('fanout', 'django') and rng.random() < 0.6:
+        # the parent goes about its own business meanwhile: its keys, its housekeeping - none of it concerns what it handed out
+        for _ in range(rng.randint(1, 4)):
+            prog.insert(rng.randint(0, len(prog)), {'op': 'parent', 'call': rng.choice(('clear', 'clear', 'expire', 'cull', 'evict', 'set', 'delete'))})
     return {'seed': seed, 'cfg': cfg, 'prog': prog}
+
+
+def parent_call(parent, call):
+    if call == 'set':
+        if type(parent).__name__ == 'DjangoCache':
+            parent.set('pk', 'parent value', timeout=30, tag='t')
+        else:
+            parent.set('pk', 'parent value', expire=30, tag='t')
+    elif call == 'delete':
+        parent.delete('pk')
+    elif call == 'evict':
+        parent.evict('t')
+    else:
+        getattr(parent, call)()
 
 
 def _norm(fn):
@@ -304,6 +322,10 @@ def run_seq(case):
                 ix.cache.close()
                 ix = dc.Index(directory)
                 probes['lifecycle'] = probes.get('lifecycle', 0) + 1
+                got = want = None
+            elif name == 'parent':
+                parent_call(parent, op['call'])
+                probes['parent_calls'] = probes.get('parent_calls', 0) + 1
                 got = want = None
             elif name == 'pickle':
                 ix = pickle.loads(pickle.dumps(ix))
